@@ -17,6 +17,26 @@ CHECKS = {
              "an exact expectation (sign of Im included); recorded float calls at scale are validated by KernelTrace.tla.",
         note="Trusts TLC, the lattice-completeness argument (statistics are polynomial forms in the data), IEEE exactness on the lattice, numba's CUDA simulator "
              "as a stand-in for a device, and the recorder's rounding budget for float traces."),
+    "C02": dict(
+        level=MC, design="DESIGN.md §3 C02",
+        technique="TLA+ models (Segmentation.tla, Sched.tla) checked by TLC + replay of the model's plans into ltf_plan/lpsd_plan + TLC trace validation of recorded plans of all four schedulers and of analyzer.plan() (SchedTrace.tla)",
+        text="TLC proves the placement theorems for every (N, L, overlap, K-choice) of the scope and checks the segment clauses on every bin of every behaviour of the exact "
+             "rational LTF/LPSD loop; the model's plans are replayed into the real schedulers; thousands of real plans (grid + seeded random configurations, four schedulers, "
+             "analyzer path) are validated clause by clause by SchedTrace.tla.",
+        note="Trusts TLC, the rational-c instantiation of the model (irrational c only through traces), the recorder's projections of long start vectors and float relations (ulp distances)."),
+    "C03": dict(
+        level=MC, design="DESIGN.md §3 C03",
+        technique="TLA+ model (Sched.tla grid invariants) checked by TLC + replay + TLC trace validation of recorded plans (SchedTrace.tla C03 clauses)",
+        text="Grid invariants (first frequency, stepping, monotonicity, Nyquist, bin-number floor) hold in every state of the exact LTF/LPSD model; the model's frequencies are "
+             "compared with the real schedulers'; every bin of thousands of recorded plans is validated by SchedTrace.tla (DFT constraint and stepping to 1 ulp, bin number, bmin floor).",
+        note="As C02; ulp distances and the sign of f - fs/2 are measured by the recorder in floating point."),
+    "C04": dict(
+        level=MC, design="DESIGN.md §3 C04",
+        technique="TLA+ models (Sched.tla, Segmentation.tla, JdesSearch.tla) checked by TLC + replay (plans, binary-search probe sequences) + TLC trace validation (SchedTrace.tla, JdesTrace.tla)",
+        text="Monotonicity, nearest-count, even placement, realised overlap and the log-spacing rule are invariants of the exact model and clauses of SchedTrace.tla evaluated on every bin of "
+             "recorded plans (log spacing re-derived per bin from the rule's own regime conditions); JdesSearch.tla is checked for every scheduler function of its scope and every run is "
+             "replayed into find_Jdes_binary_search; real searches and forced plans are validated by JdesTrace.tla.",
+        note="As C02; the log-spacing clause is evaluated for N<=512 with one quantum of slack; the 10 % bin-count clause grants one bin below 10 bins."),
 }
 
 NOT_YET = "no check registered yet in this round (specification and driver under construction; see DESIGN.md §8)"
